@@ -190,6 +190,30 @@ def main(argv):
     except RuntimeError as e:
         ffail.append({"program": "flip", "schedule": "", "failures": [{"what": "driver run", "detail": str(e)[-500:]}]})
     chk.obligation("oracle: disposing a boundary never panics when a cleanup re-runs an effect that takes a suspense guard for it (%d scenarios)" % len(fcases), not ffail, str(ffail[:1]))
+    # a waiter (until_finished) that outlives the boundary it waits for: the disposal and everything after it must not panic, and the
+    # waiter must be released (a boundary that is gone is not loading)
+    waits = [[("scope", 9, [("sus", 1, [("task", 1, 2)])]), ("wait", 5, 1)],
+             [("sus", 1, [("task", 1, 1), ("scope", 9, [("sus", 2, [("task", 2, 2)])]), ("wait", 5, 2)])],
+             [("sus", 1, [("task", 1, 2), ("scope", 9, [("sus", 2, [])]), ("wait", 5, 2)])]]
+    wcases = []
+    for prog in waits:
+        for sched in ([("dispose", 9), ("go", 1), ("go", 1)], [("go", 1), ("dispose", 9), ("go", 1), ("go", 2)], [("go", 2), ("dispose", 9), ("go", 1), ("go", 1)]):
+            wcases.append((prog, sched))
+    wfail = []
+    try:
+        wimpl = asyncgen.run_impl(binp, wcases)
+        for (prog, steps), lines in zip(wcases, wimpl):
+            f = []
+            if any("PANIC" in l for l in lines):
+                f.append({"what": "panic after the boundary a task waits for (until_finished) was disposed"})
+            if not any("done:5" in l for l in lines):
+                f.append({"what": "the waiter was never released although the boundary it waits for is gone and every other task has finished"})
+            if f:
+                wfail.append({"program": asyncgen.sx_nodes(prog), "schedule": asyncgen.sx_steps(steps), "failures": f, "output": lines})
+    except RuntimeError as e:
+        wfail.append({"program": "wait", "schedule": "", "failures": [{"what": "driver run", "detail": str(e)[-500:]}]})
+    chk.obligation("oracle: a task that awaits until_finished() of a boundary survives the disposal of that boundary: no panic, the waiter is released (%d scenarios)" % len(wcases),
+                   not wfail, str(wfail[:1]))
     # (run_impl overwrote the per-scenario side tables: restore those of the main run)
     asyncgen.AGAIN[:] = again
     asyncgen.GLOB[:] = glob
@@ -200,7 +224,7 @@ def main(argv):
     except RuntimeError as e:
         broken.append("model evaluation: " + str(e)[-500:])
         chk.obligation("model evaluation", False, str(e))
-    mism, orfail = [], list(afail) + list(ufail) + list(ffail)
+    mism, orfail = [], list(afail) + list(ufail) + list(ffail) + list(wfail)
     for i, ((prog, steps), lines) in enumerate(zip(cases, impl)):
         key = asyncgen.sx_nodes(prog) + asyncgen.sx_steps(steps)
         fails = oracle(prog, steps, lines, glob[i] if i < len(glob) else None)
